@@ -132,13 +132,22 @@ Definition effective_types (cfg : list Z) (a : option (list Z)) : list Z :=
 Definition mask_event (types : list Z) (r : Z * Z) : Z * Z :=
   (if has_type 1 types then fst r else 0, if has_type 2 types then snd r else 0).
 
+(* ---------- capByAllocatable: resource_calculator.go (fix 21d1eba) ----------
+   the reported amount is capped by ratio% of the node's CURRENT allocatable;
+   a ratio <= 0 means no cap *)
+Definition cap1 (v lim : Z) : Z := if lim <? v then lim else v.
+Definition cap_event (ratio acpu amem : Z) (r : Z * Z) : Z * Z :=
+  if ratio <=? 0 then r
+  else (cap1 (fst r) (quot64 (mul64 acpu ratio) 100), cap1 (snd r) (quot64 (mul64 amem ratio) 100)).
+
 (* ---------- calculator state machine ---------- *)
 Record cstate := mkC { c_queue : list (Z * Z); c_types : list Z }.
 Definition cinit : cstate := mkC [] [].
 
 Inductive cop :=
 | OSample (node_err : bool) (label acpu amem : Z) (pods_err : bool) (policy ucpu umem : Z)
-| OReport (node_err : bool) (label : Z) (annot : option (list Z))
+          (psel : Z)      (* which of the pod populations is active at this sampling step *)
+| OReport (node_err : bool) (label : Z) (annot : option (list Z)) (acpu amem : Z)
 | ORefresh (kind : Z) (types : list Z).  (* kind 0 cfg nil, 1 OverSubscriptionConfig nil, 2 types nil, other valid *)
 
 Inductive cout :=
@@ -146,30 +155,35 @@ Inductive cout :=
 | ReportOut (ev : option (Z * Z))
 | RefreshOut (err : bool).
 
-Definition cstep (ratio : Z) (pods : list pod) (s : cstate) (o : cop) : cstate * cout :=
+(* the pod population changes between sampling steps: pops lists the populations
+   of a history, a sampling step names the one that is active *)
+Definition pods_at (pops : list (list pod)) (psel : Z) : list pod := nth (Z.to_nat psel) pops [].
+
+Definition cstep (ratio : Z) (pops : list (list pod)) (s : cstate) (o : cop) : cstate * cout :=
   match o with
-  | OSample node_err label acpu amem pods_err policy ucpu umem =>
+  | OSample node_err label acpu amem pods_err policy ucpu umem psel =>
       if node_err || negb (label_on label) || pods_err then (s, SampleOut (-1) (c_queue s))
       else
-        let r := sample_pair ratio acpu amem (guaranteed_cpu_request policy pods) ucpu umem in
+        let r := sample_pair ratio acpu amem (guaranteed_cpu_request policy (pods_at pops psel)) ucpu umem in
         let q := enqueue (c_queue s) r in
         (mkC q (c_types s), SampleOut (if include_guaranteed policy then 1 else 0) q)
-  | OReport node_err label annot =>
+  | OReport node_err label annot acpu amem =>
       if node_err || negb (label_on label) then (s, ReportOut None)
       else match compute_report (c_queue s) with
            | None => (s, ReportOut None)
-           | Some r => (s, ReportOut (Some (mask_event (effective_types (c_types s) annot) r)))
+           | Some r => (s, ReportOut (Some (mask_event (effective_types (c_types s) annot)
+                                                        (cap_event ratio acpu amem r))))
            end
   | ORefresh kind types =>
       if (kind =? 0) || (kind =? 1) || (kind =? 2) then (s, RefreshOut true)
       else (mkC (c_queue s) types, RefreshOut false)
   end.
 
-Fixpoint crun (ratio : Z) (pods : list pod) (s : cstate) (ops : list cop) : cstate * list cout :=
+Fixpoint crun (ratio : Z) (pops : list (list pod)) (s : cstate) (ops : list cop) : cstate * list cout :=
   match ops with
   | [] => (s, [])
-  | o :: r => let '(s1, out) := cstep ratio pods s o in
-              let '(s2, outs) := crun ratio pods s1 r in (s2, out :: outs)
+  | o :: r => let '(s1, out) := cstep ratio pops s o in
+              let '(s2, outs) := crun ratio pops s1 r in (s2, out :: outs)
   end.
 
 (* ---------- eviction ---------- *)
@@ -272,12 +286,14 @@ Definition evict_pass (res : Z) (s : estate) : estate * list (Z * bool) * bool :
   else (s, [], false).
 
 Inductive cl_result :=
-| ClDone (err : Z) (rounds : nat) (calls : list (Z * bool)) (s : estate)  (* err 0 nil, 1 getNode error *)
+| ClDone (err : Z) (rounds : nat) (passes : list (list (Z * bool) * list (Z * bool))) (s : estate)
+    (* err 0 nil, 1 getNode error; passes: per round the client calls of the cpu pass and of the memory pass *)
 | ClFuel.                                                               (* loop did not end within the fuel *)
 
 (* the "for { ... }" of EvictPods; round = index of the GetNode call (call 0
    was made by DeleteNodeOverSoldStatus); node_err_at = the GetNode call that fails, if any *)
-Fixpoint evict_loop (fuel : nat) (round : nat) (node_err_at : Z) (s : estate) (acc : list (Z * bool)) : cl_result :=
+Fixpoint evict_loop (fuel : nat) (round : nat) (node_err_at : Z) (s : estate)
+                    (acc : list (list (Z * bool) * list (Z * bool))) : cl_result :=
   match fuel with
   | O => ClFuel
   | S k =>
@@ -285,8 +301,8 @@ Fixpoint evict_loop (fuel : nat) (round : nat) (node_err_at : Z) (s : estate) (a
       else
         let '(s1, c1, k1) := evict_pass 1 s in
         let '(s2, c2, k2) := evict_pass 2 s1 in
-        if k1 || k2 then evict_loop k (S round) node_err_at s2 (acc ++ c1 ++ c2)
-        else ClDone 0 round (acc ++ c1 ++ c2) s2
+        if k1 || k2 then evict_loop k (S round) node_err_at s2 (acc ++ [(c1, c2)])
+        else ClDone 0 round (acc ++ [(c1, c2)]) s2
   end.
 
 Definition cleanup (node_err_at : Z) (s : estate) : cl_result :=
